@@ -351,7 +351,7 @@ theorem step_lift {cfg : Cfg} {s s0 s' : State κ ν} {l : Label κ ν} (hs : st
 theorem exec_callbacks_not_early {fr : Bool} {s t : State κ ν} {tr : List (Obs κ ν)} {ls : List (Label κ ν)}
     (h : Exec fixedCfg fr s tr ls t) :
     ∀ s0, Reach (lts fixedCfg) s0 → strip s0 = strip s →
-      ∀ id k tm now, Obs.exec id k tm now ∈ tr → tm - halfMs ≤ now := by
+      ∀ id k tm now, Obs.exec id k tm now ∈ tr → tm - halfMs ≤ now ∨ maxDur ≤ now := by
   induction h with
   | done => intro _ _ _ id k tm now hm; simp at hm
   | hid _ hst _ ih =>
@@ -371,7 +371,9 @@ theorem exec_callbacks_not_early {fr : Bool} {s t : State κ ν} {tr : List (Obs
       obtain ⟨f1, f2, _⟩ := strip_eq_fields hs
       have := invC hr r (Or.inr (by rw [f1, hpc]))
       rw [f2, hnow, htm] at this
-      exact Int.le_of_lt this
+      rcases this with h' | h'
+      · exact Or.inl (Int.le_of_lt h')
+      · exact Or.inr h'
     · exact ih s0' (Reach.step _ hr h1) (by rw [h2, strip_strip]) id k tm now hm'
   | see hc _ ih =>
     intro s0 hr hs id k tm now hm
